@@ -594,6 +594,11 @@ def build_pool(tier):
         for f in fields:
             for lab, _ in sp["alts"][f]:
                 specs.append(((f, lab),))
+        if tier != "thorough" and cname == "Term":
+            # quick tier: the identifying fields of a term pairwise (label / name / definition / uri / one extra field)
+            key_fields = [f for f in fields if f in ("label", "name", "definition", "uri", "+extra")]
+            for f, g in itertools.combinations(key_fields, 2):
+                specs.append(((f, sp["alts"][f][0][0]), (g, sp["alts"][g][0][0])))
         if tier == "thorough":
             for f, g in itertools.combinations(fields, 2):
                 for lf, _ in sp["alts"][f]:
